@@ -868,6 +868,8 @@ namespace Dune
     oldMap_.clear();
     addedIndices_.clear();
     globalMap_.clear();
+    // the message sizes are computed anew by the next sync
+    infoSend_.clear();
 
     // update the sequence number
     remoteIndices_.sourceSeqNo_ = remoteIndices_.destSeqNo_ = indexSet_.seqNo();
